@@ -6,6 +6,6 @@ PROFILE = {'scenario_pref': ['same_count', 'nested_not', 'remove_first', 'ooo_th
 
 
 def main(tier, seed):
-    return dbtie.db_check("C02", tier, seed, PROFILE, 400, 6000, "Prop_C02",
+    return dbtie.db_check("C02", tier, seed, PROFILE, 650, 6000, "Prop_C02",
                           "user callables and re are an environment the theorems quantify over; the tie instantiates them with the twin table")
 
